@@ -317,10 +317,12 @@ def c19(prop, tier):
 # Replicator: C11 (cancellation) and C10 (refused entries)
 
 DAGS = {
-    'A': dict(hashes='{1,2,3,4}', links='LinksDef', heads='HeadsA', local='{2,3,4}', bad='{}', abort='{}', syncpass='{}',
+    'A': dict(hashes='{1,2,3,4}', links='LinksDef', heads='HeadsA', local='{2,3,4}', bad='{}', abort='{}', syncpass='{}', cached='{}',
               jl={'1': [], '2': [1], '3': [1, 2], '4': [1, 2]}, jh={'1': [3], '2': [2, 4], '3': [3, 4]}, jbad=[]),
     'B': dict(hashes='{1,2,3,4,5}', links='LinksB', heads='HeadsB', local='{3,4}', bad='{2,5}', abort='{}', syncpass='{}',
               jl={'1': [], '2': [], '3': [1], '4': [1, 5], '5': []}, jh={'1': [2, 3], '2': [4, 3, 2], '3': [3, 4]}, jbad=[2, 5]),
+    'F': dict(hashes='{1,2,3,4}', links='LinksDef', heads='HeadsA', local='{2,3,4}', bad='{}', abort='{}', syncpass='{}', cached='{1,2,3}',
+              jl={'1': [], '2': [1], '3': [1, 2], '4': [1, 2]}, jh={'1': [3], '2': [2, 4], '3': [3, 4]}, jbad=[]),
     'E': dict(hashes='{1,2,3,4,5}', links='LinksB', heads='HeadsB', local='{3,4}', bad='{2,5}', abort='{}', syncpass='{}',
               jl={'1': [], '2': [], '3': [1], '4': [1, 5], '5': []}, jh={'1': [2, 3], '2': [4, 3, 2], '3': [3, 4]}, jbad=[2, 5]),
     'D': dict(hashes='{1,2,3,4,5,7}', links='LinksD', heads='HeadsD', local='{3,4,7}', bad='{2,5,7}', abort='{}', syncpass='{7}',
@@ -333,10 +335,10 @@ DAGS = {
 def rp_cfg(name, spec, dag, conc, cancels, pinned, invs='NoWedge NoHang SemOK QueueMatchesWorkers NoDeadWorkers', maxw=10):
     d = DAGS[dag]
     return (name, '''SPECIFICATION %s
-CONSTANTS Hash = %s  Links <- %s  Local = %s  Bad = %s  SyncPass = %s  Abort = %s  NReq = 3  ReqHeads <- %s  Conc = %d  MaxCancel = %d  MaxW = %d  Pinned = %s
+CONSTANTS Hash = %s  Links <- %s  Local = %s  Bad = %s  SyncPass = %s  Cached = %s  Abort = %s  NReq = 3  ReqHeads <- %s  Conc = %d  MaxCancel = %d  MaxW = %d  Pinned = %s
 INVARIANTS %s
 CHECK_DEADLOCK FALSE
-''' % (spec, d['hashes'], d['links'], d['local'], d['bad'], d['syncpass'], d['abort'], d['heads'], conc, cancels, maxw, 'TRUE' if pinned else 'FALSE', invs))
+''' % (spec, d['hashes'], d['links'], d['local'], d['bad'], d['syncpass'], d.get('cached', '{}'), d['abort'], d['heads'], conc, cancels, maxw, 'TRUE' if pinned else 'FALSE', invs))
 
 
 RP_KINDS = {'C16': {'replicated-event'}, 'C11': {'wedged', 'missing', 'view-stale'}, 'C10': {'wedged', 'missing', 'bad-merged', 'view-stale'}}
@@ -367,7 +369,7 @@ def run_replicator(ck, prop, tier, dag, cancels, n_sim, depth):
         for st in b['steps']:
             pass
         acts = [s['action'] for s in b['steps']]
-        if ('Cancel' in acts) or (dag in 'BCDE' and 'JoinBatch' in acts):
+        if ('Cancel' in acts) or (dag in 'BCDE' and 'JoinBatch' in acts) or (dag == 'F' and 'StoreLoad' in acts):
             ck.distinct.add(vlib.beh_signature(b))
     inp = {'property': prop, 'seed': SEED, 'dag': dag, 'req_heads': d['jh'], 'nreq': 3, 'bad': d['jbad'], 'abort': [6] if dag == 'C' else [], 'links': d['jl'],
            'behaviours': bs, 'mutant': mutants, 'long_outage_s': 25 if (thorough and prop == 'C11') else 0}
@@ -406,6 +408,8 @@ def c11(prop, tier):
                'request issued again; non-trivial = behaviour containing a Cancel')
     loadpath_model(ck, prop)
     run_replicator(ck, prop, tier, 'A', 2, 100 if thorough else 16, 40)
+    # a replica that has been restarted: requests for heads it holds in its cache arrive before, while and after its own Load (DAG F)
+    run_replicator(ck, prop, tier, 'F', 1, 60 if thorough else 10, 40)
     return ck.finish()
 
 
